@@ -104,6 +104,8 @@ struct Inner<C> {
     control: Pipeline<C>,
     sink: Rc<MqttShared>,
     inflight: RefCell<HashSet<NonZeroU16>>,
+    /// `QoS` 2 publishes that are acknowledged with PUBREC and wait for PUBREL
+    pubrel: RefCell<HashSet<NonZeroU16>>,
 }
 
 impl<T, C, E> Dispatcher<T, C, E>
@@ -121,7 +123,12 @@ where
         Self {
             cfg,
             publish,
-            inner: Rc::new(Inner { sink, control, inflight: RefCell::new(HashSet::default()) }),
+            inner: Rc::new(Inner {
+                sink,
+                control,
+                inflight: RefCell::new(HashSet::default()),
+                pubrel: RefCell::new(HashSet::default()),
+            }),
             _t: PhantomData,
         }
     }
@@ -265,7 +272,7 @@ where
                 }
             }
             Decoded::Packet(Packet::PublishRelease { packet_id }, _) => {
-                if self.inner.inflight.borrow().contains(&packet_id) {
+                if self.inner.pubrel.borrow().contains(&packet_id) {
                     self.inner.control(ProtocolMessage::pubrel(packet_id)).await
                 } else {
                     Err(ProtocolError::unexpected_packet(
@@ -362,6 +369,7 @@ where
 
             if let Some(packet_id) = packet_id {
                 if qos2 {
+                    inner.pubrel.borrow_mut().insert(packet_id);
                     Ok(Some(Encoded::Packet(Packet::PublishReceived { packet_id })))
                 } else {
                     inner.inflight.borrow_mut().remove(&packet_id);
@@ -407,6 +415,7 @@ impl<C> Inner<C> {
                     }
                     ProtocolMessageKind::Nothing => None,
                     ProtocolMessageKind::PublishRelease(packet_id) => {
+                        self.pubrel.borrow_mut().remove(&packet_id);
                         self.inflight.borrow_mut().remove(&packet_id);
                         Some(Encoded::Packet(Packet::PublishComplete { packet_id }))
                     }
